@@ -581,6 +581,67 @@ example :
                           .ranTest (pkgDot ++ ['t', 'e', 's', 't', '#', 'a'])]) := by
   decide
 
+/-- The host's own runner (`Package::get_tests()` and `TestCase::run`, the cases one by one), over
+    the GENERATED `get_tests` and `TestCase::run`: on a package (with any glue) there is one handle
+    per test block, in sorted key order, and EVERY handle is its block — run on its own, whatever
+    ran before (`log`), it runs the body stored under its key exactly once and returns `Ok` iff the
+    declared verdict of THAT block is accept. -/
+theorem handle_runs_its_block {ε} (X : XID) (F : XIDFacts X) (mods : List Mod)
+    (hid : ∀ m ∈ mods, ∀ d ∈ m.decls, isIdent X d.name = true)
+    (glue : Table) (hglue : ∀ e ∈ glue, '#' ∉ e.1)
+    (dbg : Bool) (module : Module)
+    (hperm : module.functions.Perm (packageTable test_fn_name_mir test_sig_mir mods ++ glue))
+    (hnodup : (Table.keys module.functions).Nodup) :
+    ∃ cs, get_tests dbg module = .ok cs ∧
+      cs.map (fun c => c.func.key) = RStr.sort (testKeys test_fn_name_mir mods) ∧
+      ∀ c ∈ cs, ∃ m ∈ mods, ∃ n v, Decl.test n v ∈ m.decls ∧
+        c.func.key = fullName m.path (test_fn_name_mir n) ∧
+        ∀ log, TestCase_run (ε := ε) dbg c () log
+          = (.ok (if v = .Accept () then .Ok () else .Err ()), log ++ [.ranTest c.func.key]) := by
+  obtain ⟨cs, hget, hkeys, hinfo⟩ := discovery_runs X F mods hid glue hglue dbg module hperm hnodup
+  refine ⟨cs, hget, hkeys, ?_⟩
+  intro c hc
+  have hnd : (Table.keys (packageTable test_fn_name_mir test_sig_mir mods)).Nodup := by
+    have hp : (Table.keys module.functions).Perm
+        (Table.keys (packageTable test_fn_name_mir test_sig_mir mods) ++ Table.keys glue) := by
+      have := hperm.map (·.1)
+      simpa [Table.keys, List.map_append] using this
+    exact (List.nodup_append.mp (hp.nodup_iff.mp hnodup)).1
+  have hk : c.func.key ∈ testKeys test_fn_name_mir mods := by
+    have : c.func.key ∈ cs.map (fun c => c.func.key) := List.mem_map.mpr ⟨c, hc, rfl⟩
+    rw [hkeys] at this
+    exact (sort_perm _).subset this
+  simp only [testKeys, List.mem_flatMap, List.mem_map, List.mem_filter] at hk
+  obtain ⟨m, hm, d, ⟨hd, ht⟩, hkey⟩ := hk
+  cases d with
+  | fn n i => simp [Decl.isTest] at ht
+  | test n v =>
+    have h2 : (c.func.key, (⟨test_sig_mir, v⟩ : FnInfo)) ∈ packageTable test_fn_name_mir test_sig_mir mods := by
+      rw [← hkey]
+      simp only [packageTable, List.mem_flatMap, moduleTable, List.mem_map]
+      exact ⟨m, hm, .test n v, hd, rfl⟩
+    have hi := mem_nodup_unique _ _ _ _ hnd (hinfo c hc).1 h2
+    refine ⟨m, hm, n, v, hd, hkey.symm, ?_⟩
+    intro log
+    rw [testcase_run_spec]
+    simp only [accepts, evOf, hi]
+    by_cases hv : v = .Accept () <;> simp [hv]
+
+/-- non-vacuity: the handles of a two-module package with glue, each run on its own after an
+    unrelated event: the first (module `m`, rejects) returns `Err`, the second returns `Ok`. -/
+example :
+    let a : Name := ['a']
+    let eq14 : Name := [':', ':', 'g', 'e', 'n', 'e', 'r', 'a', 't', 'e', 'd', ':', ':', 'e', 'q', '_', '1', '4']
+    let glue : Table := [(eq14, ⟨⟨[.other 1, .other 1], .other 0⟩, .Accept ()⟩)]
+    let mods : List Mod := [⟨[], [.test a (.Accept ())]⟩, ⟨[['m']], [.test a (.Reject ())]⟩]
+    let module : Module := ⟨glue ++ (packageTable test_fn_name_mir test_sig_mir mods).reverse⟩
+    (match get_tests true module with
+     | .ok cs => cs.map (fun c => (TestCase_run (ε := Unit) true c () [.stage 9]))
+     | .panic => [])
+      = [(.ok (.Err ()), [.stage 9, .ranTest (pkgDot ++ ['m', '.', 't', 'e', 's', 't', '#', 'a'])]),
+         (.ok (.Ok ()), [.stage 9, .ranTest (pkgDot ++ ['t', 'e', 's', 't', '#', 'a'])])] := by
+  decide
+
 /-- The `else` branches of the GENERATED `cli_inner` (covered by no run: the `roto` binary's runtime
     has no context): on a runtime that carries a context (`try_without_ctx` is `None`) `test` and
     `run` refuse — the process fails and NOTHING happens before that: the file is not read, no
